@@ -61,7 +61,7 @@ def spectrum(name: str, st):
 
 def tolerance(case: dict, fmax: float) -> Tuple[float, str]:
     """(tolerance, tier name) for the relative change of residuals / pseudo chi-squared (calibrated on the unchanged tree, DESIGN C09)."""
-    if case["kind"] == "reverse":
+    if case["kind"].startswith("reverse"):
         return 0.0, "bit-identical"
     lsq = not case["test"].endswith("-inv") and case["test"] != "cnls"
     if case["test"] == "cnls":
@@ -113,8 +113,24 @@ def run_case(case: dict, st=None) -> Tuple[List[dict], Dict[str, Any]]:
             viols.append({"key": f"invariance|{case['kind']}|{kind}|{cfg}", "what": f"{what} [{cfg}]", "case": case, "detail": detail})
 
     try:
-        r0 = st["kk"](st["DataSet"](f0.copy(), Z0.copy()), **kw)
-        if case["kind"] == "reverse":
+        if case["kind"].startswith("reverse-mask"):
+            # the same points with the same three of them excluded, supplied in descending and in ascending order; the mask is given
+            # as a complete {index: flag} dictionary or only with its True entries, indices referring to the order supplied
+            n_ = len(f0)
+            excl = {1, 5, 6}
+            full = case["kind"].endswith("complete")
+            m0 = {i: (i in excl) for i in range(n_) if full or i in excl}
+            m1 = {n_ - 1 - i: v for i, v in m0.items()}
+            d0 = st["DataSet"](f0.copy(), Z0.copy(), mask=m0)
+            d1 = st["DataSet"](f0[::-1].copy(), Z0[::-1].copy(), mask=dict(sorted(m1.items())))
+            r0 = st["kk"](d0, **kw)
+            if len(r0.residuals) != n_ - len(excl):
+                viol("masked-points-used", f"{len(r0.residuals)} residuals for {n_} points of which {len(excl)} are excluded")
+        else:
+            r0 = st["kk"](st["DataSet"](f0.copy(), Z0.copy()), **kw)
+        if case["kind"].startswith("reverse-mask"):
+            pass
+        elif case["kind"] == "reverse":
             d1 = st["DataSet"](f0[::-1].copy(), Z0[::-1].copy())
         else:
             d1 = st["DataSet"](f0 * b, Z0 * a)
@@ -132,7 +148,8 @@ def run_case(case: dict, st=None) -> Tuple[List[dict], Dict[str, Any]]:
     dev = float(np.max(np.abs(r1.residuals - r0.residuals))) / scale
     devchi = abs(r1.pseudo_chisqr / r0.pseudo_chisqr - 1) if r0.pseudo_chisqr > 0 else 0.0
     info["dev"] = max(dev, devchi)
-    name = {"scale-Z": f"|Z| x {a:g}", "scale-f": f"f x {b:g}", "reverse": "reversed point order"}[case["kind"]]
+    name = {"scale-Z": f"|Z| x {a:g}", "scale-f": f"f x {b:g}", "reverse": "reversed point order", "reverse-mask-complete": "reversed point order with a complete mask",
+            "reverse-mask-sparse": "reversed point order with a sparse mask"}[case["kind"]]
     if dev > tol:
         viol("residuals-change", f"{name}: relative residuals change by {dev:.3g} of their maximum (tolerance {tol:g})",
              f"spectrum={case['spectrum']} num_RC={num_RC} log_F_ext={case['lfe']}")
@@ -149,12 +166,12 @@ def run_case(case: dict, st=None) -> Tuple[List[dict], Dict[str, Any]]:
         if len(m0) != len(m1) or not np.all(np.abs(m1 - a * m0) <= ptol * scale * np.abs(a * m0) + 1e-300):
             viol("model-impedance", f"{name}: the fitted model impedances do not rescale by {a:g}")
         g0, g1 = KK.extract(r0), KK.extract(r1)
-        if g0["R0"] is not None and g1["R0"] is not None and case["kind"] != "reverse":
+        if g0["R0"] is not None and g1["R0"] is not None and not case["kind"].startswith("reverse"):
             exp = (g0["R0"] * a)
             # the series/parallel resistance is only judged when it is a substantial part of the spectrum
             if abs(exp) > 0.05 * float(np.max(np.abs(Z0 * a))) and abs(g1["R0"] - exp) > 1e-2 * abs(exp) and tol <= 1e-6:
                 viol("resistance", f"{name}: fitted resistance {g1['R0']!r} is not {a:g} x {g0['R0']!r}")
-        if case["kind"] == "reverse" and r1.circuit.serialize(17) != r0.circuit.serialize(17):
+        if case["kind"].startswith("reverse") and r1.circuit.serialize(17) != r0.circuit.serialize(17):
             viol("circuit", "reversed point order gives a different fitted circuit")
     return viols, info
 
@@ -200,6 +217,11 @@ def cases(thorough: bool) -> List[dict]:
                             for kind, fac in trans:
                                 out.append({"spectrum": sp, "test": test, "adm": adm, "C": C, "L": L, "num_RC": num_RC, "lfe": lfe,
                                             "kind": kind, "factor": fac})
+    for sp in (spectra if thorough else spectra[:2]):
+        for test in KK.LINEAR_TESTS:
+            for adm in (False, True):
+                for kind in ("reverse-mask-complete", "reverse-mask-sparse"):
+                    out.append({"spectrum": sp, "test": test, "adm": adm, "C": True, "L": True, "num_RC": 8, "lfe": 0.0, "kind": kind, "factor": 1.0})
     for sp in (["CIRCUIT_1", "ladder:RC2"] if thorough else ["ladder:RC2"]):
         for adm in (False, True):
             for kind, fac in [("scale-Z", 1e3), ("scale-f", 1e-3), ("reverse", 1.0)]:
@@ -212,7 +234,7 @@ def run(ctx) -> None:
     setup()
     ctx.rule = ("spectra: bundled valid mock circuits (3 quick / 6 thorough) and RC/RQ/RCL ladders (2 / 4) with 0.1 % seeded noise x all six linear "
                 "tests (+ cnls on 1-2 spectra) x {Z, Y} x add_capacitance x add_inductance x num_RC in {3, 8, 3 per decade} x log_F_ext in "
-                "{0, 0.5} x transformations: |Z| x a and f x b for a, b in {1e-6, 1e-3, 1e3, 1e6, 2^-20, 2^20}, and reversed point order. "
+                "{0, 0.5} x transformations: |Z| x a and f x b for a, b in {1e-6, 1e-3, 1e3, 1e6, 2^-20, 2^20}, and reversed point order (also with three points excluded through a complete or a sparse mask). "
                 "Oracle: max |change of relative residual| <= tol x max |residual| and |change of pseudo chi-squared| <= tol, with tol = 0 "
                 "(reversal, bit-identical), 1e-6 (no C/L column; every |Z| scaling of the least-squares variants), 1e-3 otherwise; time "
                 "constants x 1/b; model impedances x a.")
